@@ -57,27 +57,27 @@ CHECKS = {
    "Gecko codes / quirks of the skip result are not compared (not promised).",
    "5 C10"),
  "C11": ("model_checking",
-   "exhaustive enumeration of read schedules (every two-piece split, all chunk sizes, every <=1-2 short-read deviation over all read calls) of an environment-owned reader",
+   "exhaustive enumeration of read schedules (every two-piece split, all chunk sizes, every <=1-2 short-read deviation and one interrupted call at every read-call index) of an environment-owned reader, and of call histories (failed hashed read, then the whole file)",
    "hash == xxh3 (one-shot reference) of the bytes through the closing brace for every schedule and both skip settings; trailing bytes excluded; None when not requested; carried through .slpp.",
    "xxhash-rust one-shot xxh3_64 is the reference.",
    "5 C11"),
  "C12": ("model_checking",
-   "explicit-state exploration over events x read schedules: every transition is one real parse_event call on an environment-owned reader",
+   "explicit-state exploration over events x read schedules: every transition is one real parse_event call on an environment-owned reader; unknown events up to 65,535 bytes at every boundary",
    "After every call bytes_read() == raw bytes consumed == bytes handed out, frame count monotone, completed rows equal the model; final ParseState equals the one-shot game through the Game trait; all histories x 3 schedules and 6 bases x every split/chunk/short-read deviation.",
    "Rows count as completed when the reference walker has seen their closing event.",
    "5 C12"),
  "C13": ("model_checking",
    "bounded exhaustive enumeration (rides on the C04 exploration) comparing transpose_one / Game::frame with the columns leaf by leaf",
-   "Every game of the history exploration, all 784 versions, every row, every leaf, finished and in-progress (completed rows after every event): row view == column value, absent iff column absent, items == slice between offsets.",
+   "Every game of the history exploration, all 784 versions, every row, every leaf, finished (read from .slp and loaded back from .slpp) and in-progress (completed rows after every event): row view == column value, absent iff column absent, items == slice between offsets.",
    "Fill patterns make same-typed sibling fields distinct.",
    "5 C13"),
  "C14": ("model_checking",
-   "complete enumeration over all 784 versions x 80 port configurations; schema compared with two independently built expectations; leaves addressed by name",
-   "Arrow schema (names, nesting, order, primitive types) equals the SPEC transcription and gen/resources/frames.json; one row per frame; struct validity == presence; every exported leaf == in-memory column; import serialises to the identical .slp.",
-   "Nullability flags not compared; `end` omitted for 3.0-3.6 (no fields); zero-player configuration excluded.",
+   "complete enumeration over all 784 versions x 81 port configurations; schema compared with two independently built expectations; leaves addressed by name",
+   "Arrow schema (names, nesting, order, primitive types) equals the SPEC transcription and gen/resources/frames.json; one row per frame; struct validity == presence at every nesting level; every exported leaf == in-memory column; import serialises to the identical .slp.",
+   "Nullability flags not compared; `end` (3.0-3.6) and `ports` (no player) may be omitted: Arrow has no field-less struct.",
    "5 C14"),
  "C15": ("model_checking",
-   "complete enumeration of all id sequences up to length 8 (9) over 4 (6) ids, contiguous and gapped alphabets, both modes, against the naive definition",
+   "complete enumeration of all id sequences up to length 8 (9) over 4 (6) ids, contiguous, gapped and far-apart alphabets, both modes, against the naive definition; all ordered pairs of short sequences as two calls on a fresh thread",
    "Every sequence: mask length, marked(i) iff earlier/later equal id, exactly one unmarked row per id.",
    "Sequences longer than the bound not enumerated.",
    "5 C15"),
@@ -93,16 +93,16 @@ CHECKS = {
    "5 C17"),
  "C18": ("model_checking",
    "bounded exhaustive enumeration of archives x compressions, every placement of unknown entries, and all 2^24 format-version triples (thorough) with an independent tar reader/writer",
-   "Signature, entry order, JSON entries equal to reconstructed renderings, raw entries, determinism; unknown entries ignored at every position (singles, pairs); read Err iff format version < 2.0.0.",
-   "frames.arrow presence for zero-frame games is an open zone.",
+   "Signature, entry order, JSON entries equal to reconstructed renderings, raw entries, determinism; unknown entries ignored at every position (singles, pairs); every entry length modulo 512; read Err for every format version < 2.0.0 and Ok from 2.0.0 up to the version the writer stamps.",
+   "Open zones: frames.arrow presence for zero-frame games; format versions later than the one the writer stamps.",
    "5 C18"),
  "C19": ("model_checking",
-   "complete enumeration of all 1- and 2-byte sequences at field start and straddling the field end, NUL at every position with garbage, and all 1,112,064 Unicode scalars for normalisation",
+   "complete enumeration of all 1- and 2-byte sequences at field start and straddling the field end, NUL at every position with garbage, all texts of up to 4 units of different expansion and every run of an expanding unit, and all 1,112,064 Unicode scalars for normalisation",
    "Field == strict Shift-JIS decode of the bytes before the first NUL, invalid => Err, bytes after NUL irrelevant; normalisation mapping exact and idempotent for every scalar value.",
    "encoding_rs table is the reference for valid sequences.",
    "5 C19"),
  "C20": ("model_checking",
-   "complete enumeration: 2^16 x 2^16 gate evaluations, 2^24 display/parse round trips for both Version types, all strings of length <=6 (7) over an 11-symbol alphabet",
+   "complete enumeration: 2^16 x 2^16 gate evaluations, 2^24 display/parse round trips for both Version types, all strings of length <=6 (7) over an 11-symbol alphabet, structured strings with long multi-byte components",
    "gte == lexicographic >=, lt == !gte; parse(display(v)) == v; non-version strings rejected, canonical ones accepted.",
    "'+' prefixes / leading zeros are an open zone.",
    "5 C20"),
